@@ -1127,3 +1127,19 @@ package channel
 //@   callsite Resolve : unmarshalledFrom(def) == marshalOf(appDef(x.App))
 //@   ensures encErr == nil && decErr == nil ==> !desync(r0) && rcount(r0) - old(rcount(r0)) == wcount(w0) - old(wcount(w0))
 //@   ensures encErr == nil && decErr == nil ==> paramsEqc(y, x)
+
+// Transactions: a flag, and if a state is set the state (summary token: lemma verifRoundTripState) and the sparse signature list
+// (summary token: lemma wallet.verifRoundTripSparseSigs; the decoder sizes the list by the decoded state's number of participants).
+// A transaction without state is encoded without its signatures.
+//@ pred txWFc(x Transaction) = x.State != nil ==> stateWFc(*x.State) && len(x.Sigs) == len(x.State.Balances[0])
+//@ pred txEqc(y Transaction, x Transaction) = (x.State == nil ==> y.State == nil) &&
+//@   (x.State != nil ==> y.State != nil && stateEqc(*y.State, *x.State) && sigsEq(y.Sigs, x.Sigs))
+//@ codec Transaction wf txWFc eq txEqc by verifRoundTripTransaction
+//@ func verifRoundTripTransaction
+//@   tokenmodel
+//@   requires w0 != nil && r0 != nil && txWFc(x)
+//@   modifies *
+//@   inlines (Transaction).Encode, (*Transaction).Decode
+//@   ensures encErr == nil && !rfail(r0) && !rejected(r0) ==> decErr == nil
+//@   ensures encErr == nil && decErr == nil ==> !desync(r0) && rcount(r0) - old(rcount(r0)) == wcount(w0) - old(wcount(w0))
+//@   ensures encErr == nil && decErr == nil ==> txEqc(y, x)
